@@ -60,14 +60,14 @@ CLAIMS = {
               'C05_new_handle_never_wrong_bytes, C05_any_spill. TIE: the monitor runs on the intercepted trace of each of 12 (thorough 28) operation '
               'variants; the process is really killed (os._exit) before EVERY gated call and after the last one (229 / 460 kills), the folder is then '
               'read raw and through a new handle; the Gallina programs must generate exactly the intercepted traces of 15 scenarios. PARTIAL: '
-              'direct-to-pack (no_holes) and import are certified per observed trace (all crash points of that trace) by the verified '
+              'import_objects (a composition of lookups and direct-to-pack calls with one final commit) is certified per observed trace (all crash points of that trace) by the verified '
               'monitor and by the exhaustive kill sweep, not by a program-level theorem; multi-pack pack_all_loose is the iteration of the one-pack program.'),
         design='4/C05'),
     'C06': dict(
         technique='Coq verified power-loss monitor + program-level theorem (add loose) + power-loss image at every kill point',
         text=('PROOF (Coq, closed): C06_monitor_sound with the power_loss projection (every file falls back to its last fsync), '
               'C06_add_loose_power_safe, C06_pack_power_safe (do_fsync=true: rows committed only over flushed+fsynced bytes, loose unlinked only after that '
-              'commit), C06_clean_power_safe, C06_repack_power_safe - ALL inputs and crash points; default fsync settings from the AST. TIE: fsync hook snapshots file content; '
+              'commit), C06_clean_power_safe, C06_repack_power_safe, C06_add_to_pack_power_safe - ALL inputs and crash points; default fsync settings from the AST. TIE: fsync hook snapshots file content; '
               'after each of ~220 kills (every gated call + after completion) the power-loss image is built and examined raw and through a new '
               'handle; the power-loss monitor must accept every implementation trace with default settings (it rejects the do_fsync=False '
               'variants, as it should). PARTIAL as C05; kernel/disk behaviour is the fault model of the property text, not verified.'),
@@ -100,10 +100,13 @@ CLAIMS = {
     'C09': dict(
         technique='Coq lemmas on the UNIQUE index and loose map + no-op theorem for known loose content + repeat-biased histories',
         text=('PROOF (Coq, closed): C09_one_index_entry_per_key, C09_existing_entries_untouched, C09_known_loose_content_is_a_noop (ALL inputs, every '
-              'prefix: loose/, packs/, index unchanged), C09_one_loose_file_per_key. TIE: 190 repeat-biased histories (within a batch, across batches, '
+              'prefix: loose/, packs/, index unchanged), C09_one_loose_file_per_key; direct-to-pack as a program (Programs.p_add_to_pack, three modes): '
+              'C09_add_to_pack_every_prefix (ALL batches with any repetitions: invariant - hence one row per key - at every prefix), C09_no_holes '
+              '(completed no_holes call: pack = old bytes ++ stored bytes of exactly the not-yet-indexed objects, each once; other packs/loose '
+              'untouched), C09_known_only_adds_nothing, C09_no_truncate_v0_refuted (witness of finding F3, fixed). TIE: 190 repeat-biased histories (within a batch, across batches, '
               'across forms, damaged-loose injector) with, for no_holes, pack growth compared with newly referenced bytes; traces of the no_holes '
-              'variants pass the monitor and end in the real folder. PARTIAL: the no_holes byte-exactness statement is decided by differential '
-              'testing (it was the site of finding F3, fixed), not by a Coq theorem over a direct-to-pack program.'),
+              'variants pass the monitor, end in the real folder, and are generated exactly by p_add_to_pack (5 scenarios). PARTIAL: pack roll-over inside '
+              'one call is the iteration of the one-pack program; the stored blobs (zlib) are oracles.'),
         design='4/C09'),
     'C10': dict(
         technique='Coq lemmas (mode function, transparency, sizes) + mode-chain histories with per-row flag checks',
